@@ -1553,7 +1553,20 @@ where
                 relay.then_some(id)
             }
             Ok(None) => {
-                // FIXME: Still mark as relayed by this peer.
+                // If this is an announcement we already have, still mark it as relayed by this
+                // peer, so that we don't relay it back to that peer.
+                match self.db.gossip().id_of(announcement) {
+                    Ok(Some(id)) => {
+                        let relayers = self.relayed_by.entry(id).or_default();
+                        if !relayers.contains(relayer) {
+                            relayers.push(*relayer);
+                        }
+                    }
+                    Ok(None) => {}
+                    Err(e) => {
+                        error!(target: "service", "Error looking up gossip entry from {announcer}: {e}");
+                    }
+                }
                 // FIXME: Refs announcements should not be delayed, since they are only sent
                 // to subscribers.
                 debug!(target: "service", "Ignoring stale announcement from {announcer} (t={timestamp})");
